@@ -303,8 +303,84 @@ def one_one_equals_plain(kind):
                         ["jinns.loss._LossODE:SystemLossODE.evaluate" if kind == "ODE" else "jinns.loss._LossPDE:SystemLossPDE.evaluate"])
 
 
+def per_unknown_config(kind):
+    """every per-unknown entry of the system's configuration dictionaries (boundary function / condition / component
+    selection, observation slice, normalisation samples and length, initial-condition function) reaches that unknown's
+    constraint terms: the system's non-dynamic terms equal  sum_u w_u * (terms of the plain single-network loss built
+    with u's own entries).  Two unknowns with two outputs each and *different* entries."""
+    def build():
+        from jinns.loss import LossPDEStatio, LossWeightsPDEStatio
+        dp = {"statio": 1, "nonstatio": 2}[kind]
+        eqt = {"statio": "statio_PDE", "nonstatio": "nonstatio_PDE"}[kind]
+        uk = ["u", "v"]
+        B, S_ = 2, 2
+        nets = {u: Net(f"Q{u}", eqt, dp, 2) for u in uk}
+        cls = {"statio": SysStatio, "nonstatio": SysNonStatio}[kind]
+        R = Opaque("RQ", dp + 2 * (2 + 2 * dp) + 1, 1)
+        dyn = {"e1": cls(R=R, ukeys=("u", "v"))}
+        fb = {u: OpaqueFn(f"qb{u}", [(dp,)], (1,)) for u in uk}
+        fic = {u: OpaqueFn(f"qi{u}", [(dp - 1,)], (2,)) for u in uk} if kind == "nonstatio" else None
+        bdim = {"u": jnp.s_[1:2], "v": jnp.s_[0:1]}
+        oslice = {"u": jnp.s_[0:1], "v": jnp.s_[1:2]}
+        W = {"boundary_loss": {"u": 2.0, "v": 3.0}, "observations": {"u": 5.0, "v": 7.0},
+             "initial_condition": {"u": 11.0, "v": 13.0}, "norm_loss": {"u": 17.0, "v": 19.0}}
+        def bfun(u):
+            return (lambda x: fb[u](x)) if kind == "statio" else (lambda t, x: fb[u](jnp.concatenate([t, x])))
+        def fn(th, a_, pts_, ns, L, oin, oval, bb):
+            pd = ParamsDict(nn_params={u: nets[u].nn_params(th[i]) for i, u in enumerate(uk)}, eq_params={"a": a_})
+            kw = dict(u_dict={u: nets[u].u for u in uk}, dynamic_loss_dict=dyn, params_dict=pd,
+                      loss_weights=LossWeightsPDEDict(dyn_loss=0.0, **W),
+                      omega_boundary_fun_dict={u: bfun(u) for u in uk},
+                      omega_boundary_condition_dict={u: "dirichlet" for u in uk},
+                      omega_boundary_dim_dict=dict(bdim), obs_slice_dict=dict(oslice),
+                      norm_samples_dict={"u": np.zeros((S_, dp if kind == "statio" else dp - 1)), "v": None},
+                      norm_int_length_dict={"u": 1.0, "v": None})
+            if kind == "nonstatio":
+                kw["initial_condition_fun_dict"] = {u: (lambda x, u=u: fic[u](x)) for u in uk}
+            loss = SystemLossPDE(**kw)
+            # symbolic normalisation data put in after construction (see Sys.weights for the reason)
+            loss = eqx.tree_at(lambda l: (l.u_constraints_dict["u"].norm_samples, l.u_constraints_dict["u"].norm_int_length), loss, (ns, L))
+            obs = {u: {"pinn_in": oin[i], "val": oval[i], "eq_params": {}} for i, u in enumerate(uk)}
+            if kind == "statio":
+                batch = PDEStatioBatch(inside_batch=pts_, border_batch=bb, obs_batch_dict=obs)
+            else:
+                batch = PDENonStatioBatch(times_x_inside_batch=pts_, times_x_border_batch=bb, obs_batch_dict=obs)
+            tot, ts = loss.evaluate(pd, batch)
+            exp = {t: 0.0 for t in W}
+            for i, u in enumerate(uk):
+                params = nets[u].params(th[i], {"a": a_})
+                pk = dict(u=nets[u].u, dynamic_loss=None, params=params, omega_boundary_fun=bfun(u), omega_boundary_condition="dirichlet",
+                          omega_boundary_dim=bdim[u], obs_slice=oslice[u])
+                if u == "u":
+                    pk.update(norm_samples=ns, norm_int_length=L)
+                if kind == "statio":
+                    plain = LossPDEStatio(loss_weights=LossWeightsPDEStatio(dyn_loss=0.0, norm_loss=1.0, boundary_loss=1.0, observations=1.0), **pk)
+                    pb = PDEStatioBatch(inside_batch=pts_, border_batch=bb, obs_batch_dict=obs[u])
+                else:
+                    plain = LossPDENonStatio(loss_weights=LossWeightsPDENonStatio(dyn_loss=0.0, norm_loss=1.0, boundary_loss=1.0,
+                                                                                   observations=1.0, initial_condition=1.0),
+                                             initial_condition_fun=lambda x, u=u: fic[u](x), **pk)
+                    pb = PDENonStatioBatch(times_x_inside_batch=pts_, times_x_border_batch=bb, obs_batch_dict=obs[u])
+                pts_terms = plain.evaluate(params, pb)[1]
+                for t in W:
+                    if t in pts_terms:
+                        exp[t] = exp[t] + W[t][u] * pts_terms[t]
+            return [ts[t] - exp[t] for t in sorted(W)]
+        def spec(*args):
+            return [arr(lambda _: P.ZERO, ())] * len(W)
+        def canary(*args):
+            return [arr(lambda _: P.ONE, ())] * len(W)
+        ds = dp if kind == "statio" else dp - 1
+        return dict(fn=fn, spec=spec, canary=canary,
+                    inputs=[Inp("th", (2, 1)), Inp("a", ()), Inp("pts", (B, dp)), Inp("ns", (S_, ds)), Inp("L", (), "pos"),
+                            Inp("oin", (2, B, dp)), Inp("oval", (2, B, 1)), Inp("bb", (1, dp, 2))])
+    return EqObligation(f"C13/SystemLossPDE.__post_init__/ensures.per_unknown_entries_reach_their_unknown[{kind}]", build,
+                        ["jinns.loss._LossPDE:SystemLossPDE.__post_init__", "jinns.loss._LossPDE:SystemLossPDE.evaluate",
+                         "jinns.loss._loss_utils:constraints_system_loss_apply"])
+
+
 def obligations(tier):
-    obs = []
+    obs = [per_unknown_config("statio"), per_unknown_config("nonstatio")]
     for kind in ("ODE", "statio", "nonstatio"):
         allu = lambda n: tuple(UK[:n])
         # shapes of the system: equations and unknowns vary independently
